@@ -274,6 +274,11 @@ class Gen:
                 return Decl(A(et), name, Arr(et, [self.lit(et) for _ in range(n)]))
             n = r.randint(1, 3)
             scope.vars[name] = (A(et), False, False)
+            if r.random() < 0.35:
+                # size given by a final int (resolved by the analyser, evaluated again at run time)
+                szn = self.fresh(scope)
+                scope.vars[szn] = (P("int"), True, False)
+                return [Decl(P("int"), szn, I(n), final=True), Decl(A(et, szn), name)]
             return Decl(A(et, n), name)
         t = r.choice(["int", "int", "int", "long", "float", "bool", "bit", "str"])
         final = r.random() < 0.1
